@@ -110,7 +110,9 @@ MANIFEST_TEXT = {
                     "the reference filesystem (a set of paths) or stops with out-of-space and changes nothing; after any history the tree is the reference's; "
                     "c01_fs_removetree: pyfatfs' removetree, modelled as the run of primitive calls it makes, keeps the invariant and leaves the reference's tree; "
                     "c01_fs_removetree_frame: removetree(path) leaves every entry that is not at or below path as it was (order, kind, size) and adds none, "
-                    "whatever the tree and however the call ends (the frame half of the abstract delete-subtree specification); "
+                    "whatever the tree and however the call ends (the frame half of the abstract delete-subtree specification); c01_fs_removetree_complete_partial: when the final removedir(path) of the "
+                    "expansion succeeds no entry at or below path is left (tree after = tree before minus the subtree); that the inner calls always empty the "
+                    "directory is decided by lock step, not by a theorem; "
                     "c01_fs_enospc_means_full: the allocation hint never runs ahead of a free cluster, so in every reachable state out-of-space means the "
                     "whole volume has at most n allocatable clusters. "
                     "Model.Fs is tied to the code by lock-step execution (suite fsmodel: result, whole FAT, hint, every entry, device after every call); "
